@@ -26,6 +26,7 @@ inductive SRec where
   | msg (n rem : Nat)
   | more (rem : Nat)
   | err (n rem : Nat)
+  | errc (n rem code sub : Nat)   -- BGP: an error with the NOTIFICATION code / subcode it maps to
   | panic
   | stall
   deriving DecidableEq, Repr
@@ -47,6 +48,23 @@ def frameComplete (buf : Bytes) : Bool :=
 def isFrame (maxLen : Nat) (buf : Bytes) (n : Nat) : Bool :=
   19 ≤ buf.length && declared buf == some n && 19 ≤ n && n ≤ maxLen && n ≤ buf.length
 
+/-- the NOTIFICATION an error inside a well-framed message of type `t` may map to (RFC 4271 §6.1-6.3; RFC 7313 §5):
+    OPEN ⇒ OPEN Message Error (2); UPDATE ⇒ UPDATE Message Error (3); ROUTE-REFRESH ⇒ ROUTE-REFRESH Message Error (7);
+    for every type also Message Header Error / Bad Message Length (1, 2); an unknown type ⇒ Bad Message Type (1, 3) -/
+def typeClassOk (t code sub : Nat) : Bool :=
+  if t = 1 then code == 2 || (code == 1 && sub == 2)
+  else if t = 2 then code == 3 || (code == 1 && sub == 2)
+  else if t = 3 ∨ t = 4 then code == 1 && sub == 2
+  else if t = 5 then code == 7 || (code == 1 && sub == 2)
+  else code == 1 && sub == 3
+
+/-- the error class demanded for the frame at the front of `buf`: a header length outside [19, max] ⇒ (1, 2);
+    otherwise by message type -/
+def errClassOk (maxLen : Nat) (buf : Bytes) (code sub : Nat) : Bool :=
+  match declared buf, buf[18]? with
+  | some d, some t => if d < 19 ∨ d > maxLen then code == 1 && sub == 2 else typeClassOk t code sub
+  | _, _ => false
+
 def checkBgp (maxLen : Nat) : Nat → Bytes → List Bytes → List SRec → Verdict
   | i, _, _, [] => .fail i "observation-ends-before-the-decoder-asked-for-more-or-failed"
   | i, buf, rest, r :: rs =>
@@ -63,8 +81,10 @@ def checkBgp (maxLen : Nat) : Nat → Bytes → List Bytes → List SRec → Ver
           else match rest with
             | [] => if rs.isEmpty then .ok else .fail (i + 1) "records-after-the-last-chunk"
             | ch :: rest' => checkBgp maxLen (i + 1) (buf ++ ch) rest' rs
-      | .err n rem =>
+      | .err _ _ => .fail i "error-record-without-notification-code"
+      | .errc n rem code sub =>
           if n + rem ≠ buf.length then .fail i "error-consumed-count-wrong"
+          else if !errClassOk maxLen buf code sub then .fail i "error-code-does-not-fit-the-message-type"
           else if rs.isEmpty then .ok else .fail (i + 1) "records-after-a-session-error"
 
 def checkBgpCase (maxLen : Nat) (chunks : List Bytes) (recs : List SRec) : Verdict :=
@@ -72,7 +92,7 @@ def checkBgpCase (maxLen : Nat) (chunks : List Bytes) (recs : List SRec) : Verdi
   | [] => if recs.isEmpty then .ok else .fail 0 "records-after-the-last-chunk"
   | ch :: rest => checkBgp maxLen 0 ch rest recs
 
-/-! ### RTR: "a PDU whose declared length is available is consumed (8 ≤ n ≤ len) or rejected" -/
+/-! ### RTR: "a PDU whose declared length is available is consumed (8 ≤ n = declared length ≤ len) or rejected" -/
 
 def declaredRtr (buf : Bytes) : Option Nat :=
   match buf[4]?, buf[5]?, buf[6]?, buf[7]? with
@@ -92,6 +112,7 @@ def checkRtr : Nat → Bytes → List Bytes → List SRec → Verdict
       | .stall => .fail i "stall"
       | .msg n rem =>
           if n < 8 then .fail i "rtr-pdu-consumed-less-than-a-header"
+          else if declaredRtr buf ≠ some n then .fail i "rtr-pdu-consumed-is-not-its-declared-length"
           else if n > buf.length ∨ rem ≠ buf.length - n then .fail i "rtr-pdu-consumed-count-wrong"
           else checkRtr (i + 1) (buf.drop n) rest rs
       | .more rem =>
@@ -100,6 +121,7 @@ def checkRtr : Nat → Bytes → List Bytes → List SRec → Verdict
           else match rest with
             | [] => if rs.isEmpty then .ok else .fail (i + 1) "records-after-the-last-chunk"
             | ch :: rest' => checkRtr (i + 1) (buf ++ ch) rest' rs
+      | .errc _ _ _ _ => .fail i "unexpected-record"
       | .err n rem =>
           if n + rem ≠ buf.length then .fail i "error-consumed-count-wrong"
           else if rs.isEmpty then .ok else .fail (i + 1) "records-after-a-session-error"
@@ -123,5 +145,18 @@ def checkBfd (buf : Bytes) : BObs → Verdict
   | .decoded =>
       if 24 ≤ buf.length ∧ buf[3]? = some buf.length then .ok
       else .fail 0 "bfd-decoded-a-packet-whose-length-octet-disagrees"
+
+/-! ### attribute bodies parsed lazily (TUNNEL_ENCAP, PREFIX_SID, BGP-LS): returns, without a panic -/
+
+inductive AObs where
+  | done
+  | panic
+  | stall
+  deriving DecidableEq, Repr
+
+def checkAttrBody : AObs → Verdict
+  | .done => .ok
+  | .panic => .fail 0 "panic"
+  | .stall => .fail 0 "stall"
 
 end Rbgp.Wire.Spec
